@@ -114,6 +114,17 @@ Proof.
   rewrite fs_get_set_ne by congruence. rewrite fs_get_del_ne by congruence. exact Hg.
 Qed.
 
+(* a failure under an output-size limit leaves one of the crash states *)
+Theorem run_limited_crash_state : forall L ops f, In (run_limited L f ops) (crash_states f ops).
+Proof.
+  intros L. induction ops as [|o r IH]; intro f; cbn [run_limited crash_states]; [left; reflexivity|].
+  destruct o as [p|p b|p b|s d]; try (right; apply in_or_app; right; apply IH).
+  destruct (Nat.eqb_spec (List.length b) 0) as [Hz|Hnz]; cbn [orb]; [right; apply in_or_app; right; apply IH|].
+  destruct (Nat.leb_spec (fsize p f + List.length b) L) as [Hle|Hgt].
+  - right. apply in_or_app. right. apply IH.
+  - right. apply in_or_app. left. apply in_map_iff. exists (L - fsize p f)%nat. split; [reflexivity|]. apply in_seq. lia.
+Qed.
+
 (* ---- what edit preserves *)
 Definition editable (f:nat) : bool :=
   existsb (Nat.eqb f) [F_tile_type; F_tile_comp; F_min_zoom; F_max_zoom; F_min_lon; F_min_lat; F_max_lon; F_max_lat; F_center_lon; F_center_lat; F_center_zoom].
